@@ -24,30 +24,57 @@ var FormNames = [...]string{"direct", "value", "defer", "go", "once", "deferdire
 
 // Rec records what a replacement saw.
 type Rec struct {
-	mu        sync.Mutex
-	Calls     int
-	LastArgs  []interface{}
-	Results   []interface{} // scripted results returned by the replacement
-	OriginRes []interface{} // results of the origin call made by an origin-calling replacement
-	OriginN   int
-	IsOrigin  bool // origin-calling replacement: stays "inside" until OriginDone
-	Depth     int  // current nesting (re-entry detector)
-	MaxDepth  int
-	ID        int
+	mu       sync.Mutex
+	Results  []interface{} // scripted results returned by the replacement
+	IsOrigin bool          // origin-calling replacement: stays "inside" until OriginDone
+	ID       int
+	slots    map[int]*recSlot
+}
+
+// recSlot is the per-caller part of a recorder: calls of one replacement made by different
+// simulated tasks may overlap (a task can be parked inside goom's debug wrapper, after the
+// replacement returned and before the call returns), so each task sees only its own calls.
+type recSlot struct {
+	calls     int
+	lastArgs  []interface{}
+	originRes []interface{} // results of the origin call made by an origin-calling replacement
+	originN   int
+	depth     int // current nesting (re-entry detector)
+	maxDepth  int
+}
+
+// SlotFn identifies the caller (the simulator's current task); nil means one slot for everybody.
+var SlotFn func() int
+
+func (r *Rec) slot() *recSlot {
+	k := 0
+	if SlotFn != nil {
+		k = SlotFn()
+	}
+	if r.slots == nil {
+		r.slots = map[int]*recSlot{}
+	}
+	s := r.slots[k]
+	if s == nil {
+		s = &recSlot{}
+		r.slots[k] = s
+	}
+	return s
 }
 
 // Enter is called by a generated replacement on entry.
 func (r *Rec) Enter(args []interface{}) []interface{} {
 	r.mu.Lock()
 	defer r.mu.Unlock()
-	r.Calls++
-	r.LastArgs = args
-	r.Depth++
-	if r.Depth > r.MaxDepth {
-		r.MaxDepth = r.Depth
+	s := r.slot()
+	s.calls++
+	s.lastArgs = args
+	s.depth++
+	if s.depth > s.maxDepth {
+		s.maxDepth = s.depth
 	}
 	if !r.IsOrigin { // plain replacement: leaves immediately
-		r.Depth--
+		s.depth--
 	}
 	return r.Results
 }
@@ -56,24 +83,26 @@ func (r *Rec) Enter(args []interface{}) []interface{} {
 func (r *Rec) OriginDone(res []interface{}) {
 	r.mu.Lock()
 	defer r.mu.Unlock()
-	r.OriginRes = res
-	r.OriginN++
-	r.Depth--
+	s := r.slot()
+	s.originRes = res
+	s.originN++
+	s.depth--
 }
 
-// Snapshot returns (calls, last args, maxdepth) and resets the per-call fields.
+// Snapshot returns (calls, last args, origin results) of the calling task and resets them.
 func (r *Rec) Snapshot() (int, []interface{}, []interface{}) {
 	r.mu.Lock()
 	defer r.mu.Unlock()
-	c, a, o := r.Calls, r.LastArgs, r.OriginRes
-	r.Calls, r.LastArgs, r.OriginRes = 0, nil, nil
+	s := r.slot()
+	c, a, o := s.calls, s.lastArgs, s.originRes
+	s.calls, s.lastArgs, s.originRes = 0, nil, nil
 	return c, a, o
 }
 
 // ResetDepth clears the re-entry detector.
 func (r *Rec) ResetDepth() {
 	r.mu.Lock()
-	r.MaxDepth = 0
+	r.slot().maxDepth = 0
 	r.mu.Unlock()
 }
 
@@ -81,7 +110,7 @@ func (r *Rec) ResetDepth() {
 func (r *Rec) GetMaxDepth() int {
 	r.mu.Lock()
 	defer r.mu.Unlock()
-	return r.MaxDepth
+	return r.slot().maxDepth
 }
 
 // Fn describes one zoo function.
